@@ -199,15 +199,31 @@ Theorem C31_abort13_needs_authentic_ticket :
 Proof. exact abort13_needs_authentic_ticket. Qed.
 Print Assumptions C31_abort13_needs_authentic_ticket.
 
-(* ---- creation time of issued tickets (TLS <= 1.2 sendSessionTicket, after the repair) ---- *)
-Theorem C31_issued_by_full_handshake_is_fresh : forall prev now,
-  (0 <= now < 2 ^ 63)%Z -> stale now (issue_created12 false prev now) = false.
-Proof. exact issued_by_full_handshake_is_fresh. Qed.
-Print Assumptions C31_issued_by_full_handshake_is_fresh.
+(* ---- creation time of issued tickets (TLS <= 1.2 sendSessionTicket, the code as it is) ----
+   The statement one would want,
+     forall prev now, 0 <= now < 2^63 -> stale now (issue_created12 prev now) = false
+   ("a ticket issued by a full handshake is fresh"), is FALSE of the faithful model: hs.sessionState is set
+   as soon as the presented ticket opens, so the full handshake that follows an authentic but stale ticket
+   stamps the new ticket with the stale creation time (known finding issued-ticket-backdated; not repaired
+   because TestResumption depends on the behaviour). *)
+Theorem C31_issued_without_opened_ticket_is_fresh : forall now,
+  (0 <= now < 2 ^ 63)%Z -> stale now (issue_created12 None now) = false.
+Proof. exact issued_without_opened_ticket_is_fresh. Qed.
+Print Assumptions C31_issued_without_opened_ticket_is_fresh.
 
-Theorem C31_rewrapped_ticket_keeps_age : forall c now, issue_created12 true (Some c) now = c.
-Proof. exact rewrapped_ticket_keeps_age. Qed.
-Print Assumptions C31_rewrapped_ticket_keeps_age.
+Theorem C31_issued_ticket_keeps_age : forall c now, issue_created12 (Some c) now = c.
+Proof. exact issued_ticket_keeps_age. Qed.
+Print Assumptions C31_issued_ticket_keeps_age.
+
+Theorem C31_issued_after_stale_is_stale : forall c now,
+  stale now c = true -> stale now (issue_created12 (Some c) now) = true.
+Proof. exact issued_after_stale_is_stale. Qed.
+Print Assumptions C31_issued_after_stale_is_stale.
+
+Theorem C31_issued_by_full_handshake_is_fresh_refuted :
+  exists prev now, (0 <= now < 2 ^ 63)%Z /\ stale now (issue_created12 prev now) = true.
+Proof. exact issued_by_full_handshake_is_fresh_refuted. Qed.
+Print Assumptions C31_issued_by_full_handshake_is_fresh_refuted.
 
 (* non-vacuity by computation with the real HMAC: seal, open, rotate, rotate out, flip, truncate *)
 Theorem C31_seal_open_example :
